@@ -61,7 +61,7 @@ def parsePoint (s : String) : Option (List Rat) := (s.splitOn ";").mapM parseRat
 def ratIn (q : Rat) (x : Itv) : Bool := Itv.containsExt x (.fin q)
 
 def matIn (v : Mat Rat) (z : Mat Itv) : Bool :=
-  v.r == z.r && v.c == z.c && (List.zip v.d z.d).all fun p => ratIn p.1 p.2
+  v.r == z.r && v.c == z.c && v.d.length == z.d.length && (List.zip v.d z.d).all fun p => ratIn p.1 p.2
 
 def opsExpr (op : String) (ins outs : List String) : Option String :=
   match op, ins, outs with
